@@ -15,7 +15,7 @@ RULE = ('one case = one real standard or policy audit under the socket / call / 
         '(accepts and closes at once, accepts and stays silent, stops listening, answers "Exceeded MaxStartups", answers slowly, answers normally).  Oracle over the peer\'s connection log and the in-process log: '
         'sockets created <= 1 (+1 SSH-1 fallback) + distinct probed host-key types + 9 x group-exchange algorithms + (41 for the rate check, 0 when skipped / client audit / no DH key exchange); KEXDH_INIT / GEX_REQUEST / GEX_INIT never on the first connection and '
         'at most one exchange per connection; no socket open at exit; DHEat.run / interactive rate test / process spawns never happen.  Non-trivial: the monitor saw >= 1 socket and the peer >= 1 connection; distinct = distinct (server behaviour, options)')
-REQUIRED = {'ssh1_fallback_refused_again': 1, 'multi_target_footprints': 15, 'audits': 100, 'sockets_created': 300, 'connections_logged': 300, 'rate_phase_runs': 10, 'census_checks': 100, 'kex_requests_seen': 50}
+REQUIRED = {'rate_phase_runs_with_other_timeouts': 2, 'ssh1_fallback_refused_again': 1, 'multi_target_footprints': 15, 'audits': 100, 'sockets_created': 300, 'connections_logged': 300, 'rate_phase_runs': 10, 'census_checks': 100, 'kex_requests_seen': 50}
 ASSUMPTIONS = ['"a fixed handful for group-exchange probing" = at most 9 connections per advertised group-exchange algorithm (1 range probe + 7 sizes + 1 OpenSSH follow-up); "a few dozen" for the rate check = at most 38 + 3 connection attempts',
                'closing is decided inside the process (weak-reference census of socket objects at interpreter exit), because at the peer every connection ends at process exit anyway']
 MANIFEST = {
@@ -72,6 +72,9 @@ def cases(tier, seed):
     for beh in ('normal', 'accept-close', 'silent', 'stop-listening', 'serve-some-then-close', 'exceeded', 'slow', 'garbage'):
         for rep_ in range(2 if tier == 'quick' else 10):
             cs.append({'fam': 'rate', 'behaviour': beh, 'gex': rep_ % 2 == 1})
+    # the budget of the rate check does not depend on the timeout the user sets
+    for i, tmo in enumerate([60, 2, 120] if tier == 'quick' else [60, 2, 120, 16, 30, 600, 3600]):
+        cs.append({'fam': 'rate', 'behaviour': ['normal', 'normal', 'accept-close'][i % 3], 'gex': False, 'tmo': tmo})
     # several targets in one run: the footprint on each target follows what that target advertises, whatever was scanned before it
     for i, order in enumerate([['gex', 'gex', 'plain'], ['plain', 'gex', 'gex'], ['gex', 'plain', 'gex', 'plain']] if tier == 'quick' else [list(o) for o in itertools.product(['gex', 'plain', 'gex1'], repeat=3)]):
         for th in (1, 2):
@@ -258,12 +261,13 @@ def run_case(c):
                 pr.stop_listening()
             threading.Thread(target=stopper, daemon=True).start()
         try:
-            r = runner.run_cli(['-n', pr.target()], monitors=MON, timeout=120)
+            r = runner.run_cli(['-n'] + (['-t', str(c['tmo'])] if c.get('tmo') else []) + [pr.target()], monitors=MON, timeout=120)
         finally:
             pr.stop()
         if r.timed_out:
             return {'verdict': 'inconclusive', 'why': 'watchdog'}
         counters['rate_phase_runs'] = 1
+        counters['rate_phase_runs_with_other_timeouts'] = 1 if c.get('tmo') else 0
         if not any(e['k'] == 'rate-test-enter' for e in (r.monitor or [])):
             return {'verdict': 'inconclusive', 'why': 'rate phase not reached: status %s' % r.status}
         check_footprint(r, pr, k, False, viol, counters, tag='rate:' + beh)
